@@ -1,6 +1,7 @@
 package gen
 
 import (
+	"fmt"
 	"strconv"
 	"strings"
 
@@ -597,6 +598,16 @@ func init() {
 					last = append([]*mchunk{{kind: r.Pick("escOpen", "escClose")}}, last...)
 				}
 				return c.Add(h, sexp.Bytes([]byte(renderChunks(last))))
+			}
+			if r.Chance(1, 40) {
+				// a long evening: one line, then dozens of different ones, then the first again (whatever a parser remembers
+				// about lines it has seen is bounded somewhere)
+				first := renderChunks(MarkupChunks(r))
+				h.Add(sexp.Bytes([]byte(first)))
+				for k, n := 0, 30+r.Intn(40); k < n; k++ {
+					h.Add(sexp.Bytes([]byte(fmt.Sprintf("Villager %d: nothing [b]ever[/b] happens at door %d", k, k))))
+				}
+				return c.Add(h, sexp.Bytes([]byte(first)))
 			}
 			if r.Chance(1, 6) {
 				// a conversation: lines of few speakers, written with every spacing after the colon (none, one blank, several,
